@@ -13,7 +13,7 @@
  * Injected behaviour (C18):  $STUB_B_<id>_<k> = "<when>,<how>,<delay_ms>"
  *   when: before (die before reading) | half (die after writing half of the output) | finish (write
  *         everything, close the output, then wait delay_ms and terminate)
- *   how:  exit0 | exit1 | segv | kill
+ *   how:  exit0 | exit1 | segv | kill | term | hup
  * SIGTERM is logged ("term") and then takes its default action.
  */
 #define _POSIX_C_SOURCE 200809L
@@ -65,6 +65,15 @@ die(const char *how)
 	}
 	if (strcmp(how, "kill") == 0)
 		raise(SIGKILL);
+	if (strcmp(how, "term") == 0) {
+		/* terminated from outside by the signal the driver itself uses */
+		signal(SIGTERM, SIG_DFL);
+		raise(SIGTERM);
+	}
+	if (strcmp(how, "hup") == 0) {
+		signal(SIGHUP, SIG_DFL);
+		raise(SIGHUP);
+	}
 	_exit(0);
 }
 
